@@ -364,11 +364,16 @@ def check_property(pid, tier, scratch, write_baseline=False):
     # only judge for functions that became undecidable for Verus on this tree
     from vx import bounded
     need = {}
+
+    def halias(unit, fn):
+        # a function under contract that is private to the crate is exercised by the harness through the public
+        # function that calls it (e.g. build_ot through Group::new): failing inputs are looked for there
+        return P.get("harness_alias", {}).get(unit, {}).get(fn, fn)
     for v in violations:
-        need.setdefault(v["unit"], set()).add(v["fn"])
+        need.setdefault(v["unit"], set()).add(halias(v["unit"], v["fn"]))
     for (u, q), (reason, f) in undecidable_fns.items():
         if any(owns(t) for t in f["tags"]) or not f["tags"]:
-            need.setdefault(u, set()).add(q)
+            need.setdefault(u, set()).add(halias(u, q))
     bfail = {}
     # functions that are anchored in the property but outside Verus's reach: a bounded check of each stands in on
     # every run (labelled bounded, never counted as proved)
@@ -415,7 +420,7 @@ def check_property(pid, tier, scratch, write_baseline=False):
     for v in violations:
         if v.get("failing_input"):
             continue
-        fl = bfail.get((v["unit"], v["fn"]))
+        fl = bfail.get((v["unit"], halias(v["unit"], v["fn"])))
         v["failing_input"] = dict(found=True, engine="bounded native harness on the real code (contracts/bounded/%s.rs)" % v["unit"], input=fl[0]["input"], clause=fl[0]["clause"], more=[x["input"] for x in fl[1:3]]) if fl else dict(found=False, note="verus gives no counterexample; bounded native search found none" if bounded.available(v["unit"]) else "verus gives no counterexample; no bounded harness for this unit")
     for (u, q), (reason, f) in sorted(undecidable_fns.items()):
         mine = [t for t in f["tags"] if owns(t)]
@@ -423,7 +428,7 @@ def check_property(pid, tier, scratch, write_baseline=False):
             if f["tags"]:
                 continue
             mine = ["%s:%s.contract" % (pid, re.sub(r"[^A-Za-z0-9_.]+", "_", q))]
-        fl = bfail.get((u, q))
+        fl = bfail.get((u, halias(u, q)))
         if fl:
             ob = fl[0]["clause"] if owns(fl[0]["clause"]) else mine[0]
             violations.append(dict(obligation=ob + "~bounded", fn=q, unit=u, variant="native", text="Verus could not decide this function on this tree (%s); the bounded stand-in found a failing input on the real code: %s [%s]" % (reason, fl[0]["input"], fl[0]["clause"]),
